@@ -248,6 +248,13 @@ func parentMain(m *Monitor, tier string, seed int64) int {
 		p.Counters["oracle_selftest_ok"] = 1
 	}
 
+	if m.Prepare != nil {
+		if err := m.Prepare(dir, tier, seed); err != nil {
+			fmt.Fprintf(os.Stderr, "INCONCLUSIVE property=%s: preparation failed: %v\n", m.ID, err)
+			return 2
+		}
+	}
+
 	n := m.Workers
 	if n <= 0 {
 		n = runtime.NumCPU()
@@ -492,6 +499,9 @@ func startWorker(self string, m *Monitor, tier string, seed int64, i, n int, dir
 	cmd.Stdout = lf
 	cmd.Stderr = lf
 	cmd.Env = append(os.Environ(), "GOTRACEBACK=all")
+	if m.WorkerEnv != nil {
+		cmd.Env = append(cmd.Env, m.WorkerEnv(dir)...)
+	}
 	ws := &workerState{shard: i, cmd: cmd, done: make(chan error, 1), lastMove: time.Now(), logPath: logPath}
 	if err := cmd.Start(); err != nil {
 		ws.done <- err
